@@ -114,8 +114,23 @@ func rulesC06(c *Ctx) {
 				c.Check(h.heldLocal(w.Stmt)["ServerSession.mu"], "handle:phase-read-under-mu", h, w.Stmt, "the lifecycle phase is read under ss.mu")
 			}
 		}
+		if initVar == nil {
+			// the phase is read through a helper (a locked accessor, a phase enumeration): the local that is false without
+			// InitializeParams and true with them, whatever its defining expression
+			initVar = c.c06PhaseVar(h)
+		}
 		c.Need(initVar != nil, "handle: local `initialized` := state.InitializeParams != nil")
-		c.Check(len(h.writesToVar(h.Body, initVar, true)) == 1, "handle:phase-flag-stable", h, nil, "the phase flag is assigned once")
+		// (a declaration without a value, `var initialized bool`, assigns nothing)
+		nPhaseWrites := 0
+		for _, w := range Writes(h.Body, true) {
+			if id, isID := ast.Unparen(w.LHS).(*ast.Ident); isID && h.ObjOf(id) == initVar {
+				if vs, isVS := w.Stmt.(*ast.ValueSpec); isVS && len(vs.Values) == 0 {
+					continue
+				}
+				nPhaseWrites++
+			}
+		}
+		c.Check(nPhaseWrites == 1, "handle:phase-flag-stable", h, nil, "the phase flag is assigned once")
 		methods := c.mapLiteralKeys(pM, "serverMethodInfos")
 		c.Pin("serverMethodInfos keys", len(methods), 15)
 		names := []string{"\x00other"}
@@ -142,6 +157,7 @@ func rulesC06(c *Ctx) {
 		for _, m := range names {
 			for _, init := range []bool{false, true} {
 				for _, newp := range []bool{false, true} {
+					rowEnv := c.c06NewEnv(boolTri(!init), triUnknown, boolTri(newp), m)
 					leaf := func(e ast.Expr) tri {
 						e = ast.Unparen(e)
 						if h.ObjOf(e) == initVar && initVar != nil {
@@ -175,7 +191,9 @@ func rulesC06(c *Ctx) {
 								}
 							}
 						}
-						return triUnknown
+						// anything else (a named predicate over the method, a local with several assignments, a phase read through
+						// an accessor): its value under this row's valuation, if it has one
+						return rowEnv.leaf(h)(e)
 					}
 					pre := g.ReachUnder(leaf, func(v int) bool { return v == hv[0] })
 					all := g.ReachUnder(leaf, nil)
@@ -443,6 +461,20 @@ func rulesC06(c *Ctx) {
 			case "(*ServerSession).initialize":
 				wi, _ := phaseFlags(root, initParamsF, initdParamsF)
 				ok := inUpdateState(w.f) && wi != nil && hasAtom(guards, func(a Atom) bool { return !a.Val && w.f.ObjOf(a.E) == wi })
+				// the phase is spelled another way (an enumeration derived from the state, a flag per phase): the same fact by
+				// evaluation — in every phase but the first the closure cannot store and no successful return is reachable
+				if !ok && inUpdateState(w.f) {
+					if rows, decided := c.c06Lifecycle(root, inUpdateState); decided {
+						ok = true
+						for _, row := range rows {
+							if row.phase == "new" {
+								continue
+							}
+							ok = ok && !row.stores
+							c.Check(!row.success, "initialize:second-initialize-always-refused("+row.phase+")", root, nil, "with the session in phase %q (an initialize has been accepted) no successful return of initialize is reachable", row.phase)
+						}
+					}
+				}
 				// wasInit is computed from the same state in the same closure
 				c.Check(ok, key, w.f, w.n, "initialize stores its params only under !wasInit inside updateState (guards: %s): a second initialize cannot overwrite the session", atomsString(guards))
 				// ... and a second initialize is refused whatever it carries: with wasInit true no successful return is
@@ -462,10 +494,23 @@ func rulesC06(c *Ctx) {
 					}
 				}
 			case "(*ServerSession).handle":
+				if litParentCall(w.f) == nil {
+					// the store stands in handle itself (not in a state-mutating closure): decided by evaluation
+					if w.f == root {
+						c06Adoption(c, key, root, nil, w.f, w.n)
+					} else {
+						c.Fail(key, w.f, w.n, "handle stores ServerSessionState.InitializeParams in a function literal that is not a state mutator")
+					}
+					continue
+				}
 				og := root.Graph()
 				ogd := og.GuardsAt(og.VertexOf(litParentCall(w.f)))
+				pv := phaseVar(root, initParamsF)
+				if pv == nil {
+					pv = c.c06PhaseVar(root)
+				}
 				ok := inUpdateState(w.f) && hasAtom(ogd, func(a Atom) bool {
-					return !a.Val && phaseVar(root, initParamsF) != nil && root.ObjOf(a.E) == phaseVar(root, initParamsF)
+					return !a.Val && pv != nil && root.ObjOf(a.E) == pv
 				}) && hasAtom(ogd, func(a Atom) bool { return a.Val && root.IsField(a.E, unp) })
 				c.Check(ok, key, w.f, w.n, "handle adopts per-request metadata as session parameters only when not yet initialized and the request uses the new protocol (guards: %s)", atomsString(ogd))
 				// ... and only after the request passed the version gate: a rejected request must not change the phase
@@ -518,6 +563,20 @@ func rulesC06(c *Ctx) {
 			case "(*StreamableHTTPHandler).ephemeralConnectOpts":
 				c.Ok(key, w.f, w.n, "constructor of the state of a fresh stateless session (unpublished object)")
 			default:
+				// a helper of the receive gate: a function whose only caller is handle, called once, before the dispatch. The
+				// adoption of the request's metadata then happens in that call; decided by evaluation of both functions
+				if w.f == root && root.Obj != nil {
+					var sites []*Func
+					for _, f := range c.funcsWithLits(pM) {
+						if len(f.CallsIn(f.Body, root.Obj, false)) > 0 {
+							sites = append(sites, f)
+						}
+					}
+					if len(sites) == 1 && sites[0] == h && len(h.CallsIn(h.Body, root.Obj, false)) == 1 {
+						c06Adoption(c, key, h, root, w.f, w.n)
+						continue
+					}
+				}
 				c.Fail(key, w.f, w.n, "unexpected writer of ServerSessionState.InitializeParams: the lifecycle phase can change outside the guarded transitions")
 			}
 		}
@@ -539,6 +598,20 @@ func rulesC06(c *Ctx) {
 						hasAtom(guards, func(a Atom) bool {
 							return AtomSaysNil(a, true, func(e ast.Expr) bool { return w.f.IsField(e, initdParamsF) })
 						})
+				}
+				// ... or decided by evaluation: before an accepted initialize and after an accepted initialized the closure cannot
+				// store and the notification is not accepted
+				if !ok && inUpdateState(w.f) {
+					if rows, decided := c.c06Lifecycle(root, inUpdateState); decided {
+						ok = true
+						for _, row := range rows {
+							if row.phase == "initializing" {
+								continue
+							}
+							ok = ok && !row.stores
+							c.Check(!row.success, "initialized:premature-or-repeated-refused("+row.phase+")", root, nil, "with the session in phase %q the initialized notification is not accepted", row.phase)
+						}
+					}
 				}
 				c.Check(ok, key, w.f, w.n, "initialized stores only under wasInit && !wasInitd (guards: %s)", atomsString(guards))
 			case "(*StreamableHTTPHandler).ephemeralConnectOpts":
@@ -620,6 +693,17 @@ func rulesC06(c *Ctx) {
 						}
 					}
 				}
+				if !ok {
+					// decided by evaluation: in no phase in which this return is reachable can the closure have stored
+					if rows, decided := c.c06Lifecycle(f, inUpdateState); decided {
+						ok = true
+						for _, row := range rows {
+							if rv := fg.VertexOf(r); rv >= 0 && row.reach[rv] && row.stores {
+								ok = false
+							}
+						}
+					}
+				}
 				c.Check(ok, name+":reject-on-non-writing-branch", f, r, "the rejection is returned exactly on a branch where the closure did not store (guards: %s)", atomsString(guards))
 			}
 			c.Pin(name+" rejections", nErr, map[string]int{"initialize": 2, "initialized": 2}[name])
@@ -668,4 +752,461 @@ func phaseFlags(f *Func, initF, initdF *types.Var) (wasInit, wasInitd types.Obje
 func phaseVar(f *Func, fld *types.Var) types.Object {
 	a, _ := phaseFlags(f, fld, nil)
 	return a
+}
+
+// ---- evaluation of the lifecycle gate under a concrete valuation --------------------------------
+//
+// c06Env is an abstract valuation of what the lifecycle gate can depend on: the nil-ness of the two lifecycle fields of
+// the session state, whether the request uses per-request metadata, and the request's method. Expressions are evaluated to
+// constants under it (unknown = nil): constants, nil tests of the lifecycle fields, reads of the two request roles,
+// single-assignment locals (their definition), comparisons and boolean connectives, and calls of functions of the SDK
+// with one result (the callee's own graph is walked under the same valuation with the parameters bound to the values of
+// the operands; the call has a value when every return that stays reachable yields the same constant). So a phase that is
+// spelled `state.InitializeParams != nil`, `ss.phase() != phaseNew` or `ss.beginRequest(…)` is the same phase, and a
+// method set spelled as case list or as named predicate is the same set.
+type c06Env struct {
+	c                          *Ctx
+	initF, initdF, unpF, methF *types.Var
+	ipNil, idpNil, newp        tri
+	method                     string // "" = unknown
+	vars                       map[types.Object]constant.Value
+	suppFalse                  types.Object // a two-operand call whose first operand is this object yields false
+	depth                      int
+	multi                      map[types.Object]constant.Value // locals with several assignments: nil while being computed / unknown
+}
+
+// evalMulti: a local of f's own body with several assignments has a value under the valuation when every assignment that
+// stays reachable under it assigns the same constant (and at least one does).
+func (ev *c06Env) evalMulti(f *Func, o types.Object) constant.Value {
+	v, isV := o.(*types.Var)
+	if !isV || v.IsField() || v.Pkg() == nil || v.Parent() == v.Pkg().Scope() || f.Root().addressTaken(v) || f.Body == nil {
+		return nil
+	}
+	if v.Pos() < f.Body.Pos() || v.Pos() > f.Body.End() {
+		return nil // parameters, captured variables: not decided here
+	}
+	if ev.multi == nil {
+		ev.multi = map[types.Object]constant.Value{}
+	}
+	if val, seen := ev.multi[o]; seen {
+		return val
+	}
+	ev.multi[o] = nil
+	var ws []Write
+	for _, w := range Writes(f.Body, true) {
+		if f.ObjOf(w.LHS) == o {
+			if _, isID := ast.Unparen(w.LHS).(*ast.Ident); isID {
+				ws = append(ws, w)
+			}
+		}
+	}
+	g := f.Graph()
+	ev.depth++
+	defer func() { ev.depth-- }()
+	reach := g.ReachUnder(ev.leaf(f), nil)
+	var out constant.Value
+	for _, w := range ws {
+		wv := g.VertexOf(w.Stmt)
+		if wv < 0 {
+			return nil // assigned in a literal
+		}
+		if !reach[wv] {
+			continue
+		}
+		if w.RHS == nil {
+			if _, isVS := w.Stmt.(*ast.ValueSpec); isVS || w.Tok == token.DEFINE {
+				continue
+			}
+			return nil
+		}
+		val := ev.eval(f, w.RHS)
+		if val == nil || (out != nil && (out.Kind() != val.Kind() || !constant.Compare(out, token.EQL, val))) {
+			return nil
+		}
+		out = val
+	}
+	ev.multi[o] = out
+	return out
+}
+
+func c06TriVal(t tri) constant.Value {
+	switch t {
+	case triTrue:
+		return constant.MakeBool(true)
+	case triFalse:
+		return constant.MakeBool(false)
+	}
+	return nil
+}
+
+func c06ValTri(v constant.Value) tri {
+	if v == nil || v.Kind() != constant.Bool {
+		return triUnknown
+	}
+	return boolTri(constant.BoolVal(v))
+}
+
+func (ev *c06Env) leaf(f *Func) func(ast.Expr) tri {
+	return func(e ast.Expr) tri { return c06ValTri(ev.eval(f, e)) }
+}
+
+func (ev *c06Env) eval(f *Func, e ast.Expr) constant.Value {
+	e = ast.Unparen(e)
+	if e == nil || ev.depth > 12 {
+		return nil
+	}
+	if v := f.ConstVal(e); v != nil {
+		return v
+	}
+	if x, twn, ok := NilTest(e); ok {
+		var t tri
+		switch {
+		case f.IsField(x, ev.initF):
+			t = ev.ipNil
+		case f.IsField(x, ev.initdF):
+			t = ev.idpNil
+		default:
+			return nil
+		}
+		if !twn {
+			t = triNot(t)
+		}
+		return c06TriVal(t)
+	}
+	switch x := e.(type) {
+	case *ast.Ident:
+		o := f.ObjOf(x)
+		if o == nil {
+			return nil
+		}
+		if v, ok := ev.vars[o]; ok {
+			return v
+		}
+		if d := f.valueOf(x); d != ast.Expr(x) {
+			ev.depth++
+			v := ev.eval(f, d)
+			ev.depth--
+			return v
+		}
+		return ev.evalMulti(f, o)
+	case *ast.SelectorExpr:
+		if f.IsField(x, ev.unpF) {
+			return c06TriVal(ev.newp)
+		}
+		if f.IsField(x, ev.methF) && ev.method != "" {
+			return constant.MakeString(ev.method)
+		}
+	case *ast.UnaryExpr:
+		if x.Op == token.NOT {
+			return c06TriVal(triNot(c06ValTri(ev.eval(f, x.X))))
+		}
+	case *ast.BinaryExpr:
+		switch x.Op {
+		case token.LAND, token.LOR:
+			return c06TriVal(evalTri(x, ev.leaf(f)))
+		case token.EQL, token.NEQ:
+			a, b := ev.eval(f, x.X), ev.eval(f, x.Y)
+			if a == nil || b == nil || a.Kind() != b.Kind() || a.Kind() == constant.Unknown {
+				return nil
+			}
+			return constant.MakeBool(constant.Compare(a, x.Op, b))
+		}
+	case *ast.CallExpr:
+		if ev.suppFalse != nil && len(x.Args) == 2 && f.ObjOf(x.Args[0]) == ev.suppFalse {
+			return constant.MakeBool(false)
+		}
+		callee := f.Callee(x)
+		if callee == nil || ev.depth > 8 {
+			return nil
+		}
+		cf := ev.c.P.FuncOf(callee)
+		if cf == nil || cf.Body == nil || cf.Type == nil {
+			return nil
+		}
+		if sig, ok := callee.Type().(*types.Signature); !ok || sig.Results().Len() != 1 || sig.Variadic() {
+			return nil
+		}
+		sub := ev.bind(f, x, cf)
+		if sub == nil {
+			return nil
+		}
+		g := cf.Graph()
+		reach := g.ReachUnder(sub.leaf(cf), nil)
+		var out constant.Value
+		for _, r := range cf.Returns() {
+			if rv := g.VertexOf(r); rv < 0 || !reach[rv] {
+				continue
+			}
+			if len(r.Results) != 1 {
+				return nil
+			}
+			v := sub.eval(cf, r.Results[0])
+			if v == nil || (out != nil && (out.Kind() != v.Kind() || !constant.Compare(out, token.EQL, v))) {
+				return nil
+			}
+			out = v
+		}
+		return out
+	}
+	return nil
+}
+
+// bind: the valuation inside callee cf for the call `call` read in f: the same state and request, the parameters bound to
+// the values of the operands (as far as they have one).
+func (ev *c06Env) bind(f *Func, call *ast.CallExpr, cf *Func) *c06Env {
+	sub := *ev
+	sub.vars = map[types.Object]constant.Value{}
+	sub.multi = nil
+	sub.depth = ev.depth + 1
+	i := 0
+	for _, fld := range cf.Type.Params.List {
+		n := len(fld.Names)
+		if n == 0 {
+			n = 1
+		}
+		for j := 0; j < n; j++ {
+			if i >= len(call.Args) {
+				return nil
+			}
+			if j < len(fld.Names) {
+				if p, ok := cf.Info().Defs[fld.Names[j]].(*types.Var); ok && p != nil {
+					if v := ev.eval(f, call.Args[i]); v != nil {
+						sub.vars[p] = v
+					}
+				}
+			}
+			i++
+		}
+	}
+	if i != len(call.Args) {
+		return nil
+	}
+	return &sub
+}
+
+func (c *Ctx) c06NewEnv(ipNil, idpNil, newp tri, method string) *c06Env {
+	return &c06Env{c: c,
+		initF:  c.Field(pM, "ServerSessionState", "InitializeParams"),
+		initdF: c.Field(pM, "ServerSessionState", "InitializedParams"),
+		unpF:   c.Field(pM, "validatedMeta", "usesNewProtocol"),
+		methF:  c.Field(pJ, "Request", "Method"),
+		ipNil:  ipNil, idpNil: idpNil, newp: newp, method: method,
+		vars: map[types.Object]constant.Value{}}
+}
+
+// c06PhaseVar: the boolean local of f that holds "an initialize has been accepted": whatever its defining expression is, it
+// evaluates to false for a state without InitializeParams and to true for every state with them.
+func (c *Ctx) c06PhaseVar(f *Func) types.Object {
+	for _, w := range Writes(f.Body, false) {
+		if w.RHS == nil {
+			continue
+		}
+		id, isID := ast.Unparen(w.LHS).(*ast.Ident)
+		if !isID || id.Name == "_" {
+			continue
+		}
+		if b, ok := f.TypeOf(w.RHS).Underlying().(*types.Basic); !ok || b.Info()&types.IsBoolean == 0 {
+			continue
+		}
+		if f.ConstVal(w.RHS) != nil {
+			continue
+		}
+		v1 := c06ValTri(c.c06NewEnv(triTrue, triTrue, triUnknown, "").eval(f, w.RHS))
+		v2 := c06ValTri(c.c06NewEnv(triFalse, triTrue, triUnknown, "").eval(f, w.RHS))
+		v3 := c06ValTri(c.c06NewEnv(triFalse, triFalse, triUnknown, "").eval(f, w.RHS))
+		if v1 == triFalse && v2 == triTrue && v3 == triTrue {
+			return f.ObjOf(id)
+		}
+	}
+	return nil
+}
+
+// closure walks a state-mutating closure under the valuation: the enclosing function's locals it assigns are bound to the
+// value they leave with (ok=false when such a local has no single value under the valuation), and stores reports whether
+// a store to one of the lifecycle fields stays reachable.
+func (ev *c06Env) closure(lit *Func) (stores, ok bool) {
+	g := lit.Graph()
+	captured := map[types.Object][]Write{}
+	var order []types.Object
+	for _, w := range Writes(lit.Body, false) {
+		id, isID := ast.Unparen(w.LHS).(*ast.Ident)
+		if !isID || w.RHS == nil {
+			continue
+		}
+		v, isV := lit.ObjOf(id).(*types.Var)
+		if !isV || v.IsField() || (v.Pos() >= lit.Body.Pos() && v.Pos() <= lit.Body.End()) {
+			continue
+		}
+		if lit.Lit != nil && v.Pos() >= lit.Lit.Pos() && v.Pos() <= lit.Lit.End() {
+			continue // the closure's own parameters
+		}
+		if captured[v] == nil {
+			order = append(order, v)
+		}
+		captured[v] = append(captured[v], w)
+	}
+	ok = true
+	reach := g.ReachUnder(ev.leaf(lit), nil)
+	for _, o := range order {
+		var val constant.Value
+		single := true
+		isW := map[int]bool{}
+		for _, w := range captured[o] {
+			wv := g.VertexOf(w.Stmt)
+			isW[wv] = true
+			if wv < 0 || !reach[wv] {
+				continue
+			}
+			v := ev.eval(lit, w.RHS)
+			if v == nil || (val != nil && (val.Kind() != v.Kind() || !constant.Compare(val, token.EQL, v))) {
+				single = false
+				break
+			}
+			val = v
+		}
+		if single && val != nil {
+			// every path through the closure assigns it
+			skip := g.ReachUnder(ev.leaf(lit), func(v int) bool { return isW[v] })
+			for _, x := range g.Exits {
+				if skip[x] {
+					single = false
+				}
+			}
+		}
+		if !single || val == nil {
+			ok = false
+			continue
+		}
+		ev.vars[o] = val
+	}
+	reach = g.ReachUnder(ev.leaf(lit), nil)
+	for _, fld := range []*types.Var{ev.initF, ev.initdF} {
+		for _, st := range lit.FieldWrites(lit.Body, fld, false) {
+			if sv := g.VertexOf(st); sv >= 0 && reach[sv] {
+				stores = true
+			}
+		}
+	}
+	return
+}
+
+// c06Row: what a lifecycle handler does in one phase of the session.
+type c06Row struct {
+	phase   string
+	stores  bool   // a store to a lifecycle field is reachable
+	success bool   // a return without error is reachable
+	reach   []bool // the handler's vertices reachable in this phase
+}
+
+// c06Lifecycle evaluates a lifecycle handler (initialize / initialized) in each of the three phases; ok=false when some
+// phase cannot be decided (no state-mutating closure, or a flag without a single value).
+func (c *Ctx) c06Lifecycle(f *Func, mutating func(*Func) bool) (rows []c06Row, ok bool) {
+	ok = true
+	for _, ph := range []struct {
+		name    string
+		ip, idp tri
+	}{{"new", triTrue, triTrue}, {"initializing", triFalse, triTrue}, {"ready", triFalse, triFalse}} {
+		ev := c.c06NewEnv(ph.ip, ph.idp, triUnknown, "")
+		row := c06Row{phase: ph.name}
+		n := 0
+		for _, l := range f.Lits() {
+			if !mutating(l) {
+				continue
+			}
+			n++
+			s, lok := ev.closure(l)
+			row.stores = row.stores || s
+			ok = ok && lok
+		}
+		if n == 0 {
+			ok = false
+		}
+		g := f.Graph()
+		row.reach = g.ReachUnder(ev.leaf(f), nil)
+		for _, r := range f.Returns() {
+			if rv := g.VertexOf(r); rv >= 0 && row.reach[rv] && len(r.Results) == 2 && isNilIdent(r.Results[1]) {
+				row.success = true
+			}
+		}
+		rows = append(rows, row)
+	}
+	return
+}
+
+// c06Adoption decides the adoption of a request's metadata as session parameters when the store does not stand in a
+// state-mutating closure of handle: it stands in handle itself (helper == nil) or in a helper that only handle calls.
+// For every method × {an initialize was accepted} × {new protocol}: if the store is reachable under that valuation (in the
+// helper: with its parameters bound to the operands of the call), then the session was not initialized and the request
+// uses the new protocol, and no return that refuses the request is reachable behind it, before the dispatch, under the
+// same valuation. And the store is unreachable for a request that the version gate refuses.
+func c06Adoption(c *Ctx, key string, h, helper, sf *Func, store ast.Node) {
+	og := h.Graph()
+	hr := c.FnObj(pM, "", "handleReceive")
+	dispatchV := og.callVertices(hr)
+	c.Must(len(dispatchV) > 0, key+":dispatch-found", h, nil, "handle dispatches through handleReceive")
+	var call *ast.CallExpr
+	av := og.VertexOf(store)
+	if helper != nil {
+		call = h.CallsIn(h.Body, helper.Obj, false)[0]
+		av = og.VertexOf(call)
+	}
+	sg := sf.Graph()
+	sv := sg.VertexOf(store)
+	if av < 0 || sv < 0 {
+		c.Undecided(key, sf, store, "the store is not a vertex of the gate's graph")
+		return
+	}
+	c.Check(sf.heldLocal(store)["ServerSession.mu"], key+":under-mu", sf, store, "the session parameters are stored with ss.mu held")
+	c.Check(og.Dominates(av, dispatchV[0]) || !og.ReachableFrom(dispatchV[0])[av], key+":before-dispatch", h, og.Node(av), "the adoption does not follow the dispatch")
+	names := []string{"\x00other"}
+	for m := range c.mapLiteralKeys(pM, "serverMethodInfos") {
+		names = append(names, m)
+	}
+	sort.Strings(names)
+	after := og.ReachableFromAvoiding(av, dispatchV[0])
+	var badGuard, badRefusal []string
+	var badNode ast.Node
+	nStored := 0
+	for _, m := range names {
+		for _, ip := range []tri{triTrue, triFalse} {
+			for _, np := range []tri{triTrue, triFalse} {
+				ev := c.c06NewEnv(ip, triUnknown, np, m)
+				reach := og.ReachUnder(ev.leaf(h), nil)
+				if !reach[av] {
+					continue
+				}
+				if helper != nil {
+					sub := ev.bind(h, call, helper)
+					if sub == nil || !sg.ReachUnder(sub.leaf(helper), nil)[sv] {
+						continue
+					}
+				}
+				nStored++
+				c.paths++
+				label := fmt.Sprintf("[%s,init=%v,new=%v]", strings.TrimPrefix(m, "\x00"), ip == triFalse, np == triTrue)
+				if ip != triTrue || np != triTrue {
+					badGuard = append(badGuard, label)
+				}
+				pre := og.ReachUnder(ev.leaf(h), func(v int) bool { return v == dispatchV[0] })
+				for _, r := range h.Returns() {
+					rv := og.VertexOf(r)
+					if len(r.Results) == 2 && !isNilIdent(r.Results[1]) && rv >= 0 && after[rv] && pre[rv] {
+						badRefusal = append(badRefusal, label+"→"+errorCodeOf(h, r.Results[1]))
+						badNode = r
+					}
+				}
+			}
+		}
+	}
+	c.Check(len(badGuard) == 0 && nStored > 0, key, sf, store, "handle adopts per-request metadata as session parameters only when not yet initialized and the request uses the new protocol (stored under: %v of %d valuations that store)", badGuard, nStored)
+	c.Check(len(badRefusal) == 0, key+":no-refusal-after-adoption", h, badNode, "between the adoption of the request's metadata and the dispatch to the handler no return refuses the request: a refused request leaves the session's phase as it was (refused after adoption: %v)", badRefusal)
+	ev := c.c06NewEnv(triUnknown, triUnknown, triTrue, "")
+	ev.suppFalse = c.Obj(pM, "supportedProtocolVersions")
+	reach := og.ReachUnder(ev.leaf(h), nil)
+	stored := reach[av]
+	if stored && helper != nil {
+		sub := ev.bind(h, call, helper)
+		stored = sub == nil || sg.ReachUnder(sub.leaf(helper), nil)[sv]
+	}
+	c.Check(!stored, key+":after-version-gate", sf, store, "the session adopts the request's metadata only after the unsupported-version test has passed; otherwise a request answered -32022 still flips the session to initialized")
 }
